@@ -403,7 +403,11 @@ def run(chk):
 
 def replay(chk, rep):
     import json
-    print(json.dumps(rep, indent=1)[:3000])
+    print(json.dumps({k: v for k, v in rep.items() if k != "input_hex"}, indent=1)[:3000])
+    if rep.get("input") and rep.get("input_hex") and not os.path.exists(rep["input"]):
+        os.makedirs(os.path.dirname(rep["input"]), exist_ok=True)
+        with open(rep["input"], "wb") as f:
+            f.write(bytes.fromhex(rep["input_hex"]))
     # a recorded JSON import case: the same text through createFromJSON / updateFromJSON in process (exception type) once more
     if rep.get("case_kind") == "json" and rep.get("input") and os.path.exists(rep["input"]) and rep["input"].endswith(".json"):
         mode = "u" if ("mode u" in (rep.get("why") or "") or "--update-from-json" in " ".join(rep.get("argv") or [])) else "c"
